@@ -92,7 +92,7 @@ def make_inputs(rng, n):
             # ordinary one: different inputs (different value / ill-formed) that a careless normalisation would merge
             group = []
             for inner in rng.sample(('a b', 'a  b', 'a\tb', 'a\xa0b', 'a b ', ' a b', 'ab', 'C:\\data\\logs', '50\\% done',
-                                     '\\x41', 'caf\\u00e9', 'a\\ b', 'q\\'), 3):
+                                     '\\x41', 'caf\\u00e9', 'a\\ b', 'q\\', 'step 1) stop', ']', '}}', '({[', 'a ] b'), 3):
                 lit = '"' + inner + '"'
                 if level in ('specification', 'property'):
                     body = toks
@@ -111,6 +111,11 @@ def make_inputs(rng, n):
                 group.append(base + gen.pick(rng, ('\xa0', '\u2028', '\x1f')))
             for g in group:
                 out.append((level, g, len(g.split()), 'twin', 'whitespace-twin'))
+                if rng.random() < 0.5:
+                    # the same text cut short at a token boundary (a valid prefix that stops too early)
+                    words = g.split(' ')
+                    cut = ' '.join(words[:rng.randrange(1, max(2, len(words)))])
+                    out.append((level, cut, len(cut.split()), 'truncated', 'truncated'))
             continue
         if level in ('predicate', 'condition', 'expression') and rng.random() < 0.04:
             # legal number spellings at the edge of what the host language converts: overflowing exponents, denormals,
